@@ -1112,7 +1112,9 @@ var rootTypes = []protoreflect.MessageType{
 	(&testpb.TestAllExtensions{}).ProtoReflect().Type(),
 	(&newspb.Article{}).ProtoReflect().Type(),
 	(&newspb.Article{}).ProtoReflect().Type(),
+	(&newspb.Article{}).ProtoReflect().Type(),
 	(&textpb2.KnownTypes{}).ProtoReflect().Type(),
+	(&anypb.Any{}).ProtoReflect().Type(),
 	(&anypb.Any{}).ProtoReflect().Type(),
 	(&newspb.KeyValueAttachment{}).ProtoReflect().Type(),
 }
